@@ -441,7 +441,12 @@ def resolve(e, env, depth=0):
         return ("mcall", e["method"], resolve(e["recv"], env, depth + 1), tuple(args))
     if k == "Call":
         f = e["func"]
-        fname = f["path"] if f["k"] == "Path" else "?"
+        if f["k"] == "Path":
+            fname = f["path"]
+        elif f["k"] == "Call":
+            fname = show(resolve(f, env, depth + 1))  # curried combinator: char('@')(input)
+        else:
+            fname = "?"
         return ("call", fname, tuple(resolve(a, env, depth + 1) for a in e["args"]))
     if k == "Lit":
         return ("lit", e["v"])
